@@ -3,11 +3,13 @@ package c04
 import (
 	"encoding/binary"
 	"fmt"
+	"sync"
 
 	"github.com/jcmturner/gokrb5/v8/client"
 	"github.com/jcmturner/gokrb5/v8/config"
 	"github.com/jcmturner/gokrb5/v8/credentials"
 	"github.com/jcmturner/gokrb5/v8/keytab"
+	"github.com/jcmturner/gokrb5/v8/messages"
 	"github.com/jcmturner/gokrb5/v8/test/testdata"
 	"github.com/jcmturner/gokrb5/v8/types"
 
@@ -16,6 +18,26 @@ import (
 	"verif/harness/ref/keytabfmt"
 	ref "verif/harness/ref/krbcrypto"
 )
+
+var (
+	confKtOnce sync.Once
+	confKt     *keytab.Keytab
+)
+
+// confClientKeytab holds keys of user@EXAMPLE.COM for three etypes (built once per process).
+func confClientKeytab() *keytab.Keytab {
+	confKtOnce.Do(func() {
+		var es []mint.KeytabEntry
+		for _, et := range []int32{ref.AES256SHA1, ref.AES128SHA1, ref.RC4} {
+			es = append(es, mint.KeytabEntry{Principal: "user", Realm: "EXAMPLE.COM", KVNO: 1, Key: mint.Key{EType: et, Value: wKey("conf-client", et).Value}, Timestamp: 1000})
+		}
+		confKt = keytab.New()
+		if err := confKt.Unmarshal(mint.KeytabBytes(es)); err != nil {
+			panic("c04: conf client keytab: " + err.Error())
+		}
+	})
+	return confKt
+}
 
 var binMuts = []string{"none", "prefix", "subst", "bitflip", "extend", "field16", "field32"}
 
@@ -208,6 +230,26 @@ func init() {
 			c.GetKpasswdServers("EXAMPLE.COM", true)
 		}
 		c.JSON()
+		// ... and a client built on it: requests are constructed from the configuration's values (etype lists,
+		// options, lifetimes, pre-authentication types) before anything is sent. The KDC lists are pointed at a closed
+		// loopback port and the keytab is built once, so nothing leaves the process and no key derivation is paid for.
+		for i := range c.Realms {
+			c.Realms[i].KDC = []string{"127.0.0.1:1"}
+			c.Realms[i].KPasswdServer = []string{"127.0.0.1:1"}
+		}
+		c.LibDefaults.DNSLookupKDC, c.LibDefaults.DNSLookupRealm = false, false
+		realm := c.LibDefaults.DefaultRealm
+		if realm == "" {
+			realm = "EXAMPLE.COM"
+		}
+		for _, assume := range []bool{true, false} {
+			cl := client.NewWithKeytab("user", realm, confClientKeytab(), c, client.AssumePreAuthentication(assume), client.DisablePAFXFAST(true))
+			cl.Login()
+			cl.Destroy()
+		}
+		cn := types.NewPrincipalName(1, "user")
+		messages.NewASReqForTGT(realm, c, cn)
+		messages.NewASReqForChgPasswd(realm, c, cn)
 		return err
 	}), structOK: func(_ string, in []byte) bool {
 		for _, b := range in {
